@@ -277,6 +277,10 @@ func buildValue(vc vlCase) (reflect.Value, error) {
 		return sliceOf(reflect.SliceOf(T), sliceOf(T, L), sliceOf(T)), nil
 	case "mapOfSlice":
 		return mapOf(str, reflect.SliceOf(T), reflect.ValueOf("k"), sliceOf(T, L)), nil
+	case "ptrSlice": // a pointer to a slice / to a map (composite literals are addressable, conversions are not)
+		return ptrTo(sliceOf(T, L, L)), nil
+	case "ptrMap":
+		return ptrTo(mapOf(str, T, reflect.ValueOf("k"), L)), nil
 	case "ptr":
 		return ptrTo(L), nil
 	case "sliceOfPtr":
